@@ -76,6 +76,40 @@ for _n in range(0, 6):
 
 
 
+# ---- sampling (C17): a copy is returned, the source is untouched; without uncertainty the copy equals the source, with uncertainty
+# every value (and the assumption) is shifted by the same sigma x draw
+def _env_sample(n, has_sigma):
+    base = _env(n)
+
+    def make(it):
+        from pyvc.core import LArr
+
+        env = base(it)
+        draw = z3.Real("draw")
+        sigma = z3.Real("sigma") if has_sigma else None
+        env["self"].fields["sigma"] = sigma
+        env.update(DRAW=LArr(1, lambda i: draw), draw=draw, sigma=sigma, constant=True)
+        return env
+
+    return make
+
+
+for _n in range(0, 3):
+    for _hs in (False, True):
+        _shift = "sigma * draw" if _hs else "0"
+        CONTRACTS["utils:TimeSeries.sample#n%d_%s" % (_n, "sigma" if _hs else "nosigma")] = dict(
+            schema=schema, make_env=_env_sample(_n, _hs), call_stubs={"np.random.randn": "DRAW"},
+            ensures=[
+                ("C17.sample_is_a_copy_with_the_same_times", "result is not self and len(result.t) == %d and all(result.t[i] == old_t[i] for i in range(%d))" % (_n, _n)),
+                ("C17.every_value_is_shifted_by_sigma_times_the_draw" if _hs else "C17.without_uncertainty_the_sample_equals_the_source",
+                 "len(result.vals) == %d and all(result.vals[i] == old_v[i] + %s for i in range(%d)) and result.assumption == old_assumption + %s" % (_n, _shift, _n, _shift)),
+                ("C17.source_series_is_untouched", "len(self.t) == %d and len(self.vals) == %d and all(self.t[i] == old_t[i] and self.vals[i] == old_v[i] for i in range(%d)) and self.assumption == old_assumption and not self._sampled" % (_n, _n, _n)),
+                ("C17.sample_is_marked_as_sampled", "result._sampled"),
+            ],
+            defined_props=["C17"], raises={}, raises_props=["C17"], has_sigma=_hs)
+
+
+
 def _replay(model, contract):
     """replay on a REAL TimeSeries with the model's times and values"""
     import atomica.utils as au
@@ -110,6 +144,34 @@ def _replay(model, contract):
             want = vs[i] + (vs[i + 1] - vs[i]) * (t2 - ts[i]) / (ts[i + 1] - ts[i])
         ok = len(got) == 1 and abs(float(got[0]) - want) <= 1e-9 * max(1.0, abs(want))
         return dict(verdict="holds" if ok else "violates", detail="interpolate(%r) returned %r, the documented rule gives %r" % (t2, list(map(float, got)), want), prestate=pre)
+    if contract["op"] == "sample":
+        a, draw = val("assumption"), val("draw")
+        sigma = val("sigma") if contract.get("has_sigma") else None
+        pre = dict(t=ts, vals=vs, op="sample", assumption=a, sigma=sigma, draw=draw)
+        if any(x >= y for x, y in zip(ts, ts[1:])):
+            return dict(verdict="requires-fail", detail="model times not strictly increasing", prestate=pre)
+        s = au.TimeSeries(t=list(ts), vals=list(vs), assumption=a, sigma=sigma)
+        import numpy as np
+        real_randn = np.random.randn
+        np.random.randn = lambda *shape: np.full(shape if shape else (1,), draw)
+        try:
+            new = s.sample(constant=True)
+        except Exception as e:
+            return dict(verdict="violates", detail="real code raised %s: %s" % (type(e).__name__, e), prestate=pre)
+        finally:
+            np.random.randn = real_randn
+        shift = (sigma * draw) if sigma is not None else 0.0
+        close = lambda x, y: abs(x - y) <= 1e-9 * max(1.0, abs(y))
+        bad = []
+        if new is s or list(new.t) != list(ts):
+            bad.append("sample is not an independent copy with the same times")
+        if len(new.vals) != n or not all(close(x, v + shift) for x, v in zip(new.vals, vs)) or not close(new.assumption, a + shift):
+            bad.append("sampled values %r / assumption %r, expected the source shifted by %r" % (list(new.vals), new.assumption, shift))
+        if list(s.t) != list(ts) or list(s.vals) != list(vs) or s.assumption != a or s._sampled:
+            bad.append("the source series was modified")
+        if not new._sampled:
+            bad.append("the sample is not marked as sampled")
+        return dict(verdict="violates" if bad else "holds", detail="; ".join(bad) or "sample is the source shifted by sigma x draw; source untouched", prestate=pre)
     t = val("t")
     pre = dict(t=ts, vals=vs, op=contract["op"], at=t)
     if any(a >= b for a, b in zip(ts, ts[1:])):
@@ -136,5 +198,5 @@ def _replay(model, contract):
 
 for _k, _c in CONTRACTS.items():
     _c["replay_hook"] = _replay
-    _c["n"] = int(_k.split("#n")[1])
-    _c["op"] = "insert" if ".insert#" in _k else ("remove" if ".remove#" in _k else "interpolate")
+    _c["n"] = int(_k.split("#n")[1].split("_")[0])
+    _c["op"] = "insert" if ".insert#" in _k else ("remove" if ".remove#" in _k else ("sample" if ".sample#" in _k else "interpolate"))
